@@ -967,6 +967,56 @@ func ruleRegister(c *Ctx, rule string) {
 				}
 			}
 		}
+		// ... or of a presence predicate (contains(key)) that returns the lookup's ok for its parameter
+		for _, cl := range eng.Calls(f) {
+			call, ok := cl.(*ssa.Call)
+			if !ok {
+				continue
+			}
+			h := call.Call.StaticCallee()
+			if h == nil || !p.InRepo(h) || len(h.Blocks) == 0 || h.Signature.Results().Len() != 1 {
+				continue
+			}
+			for _, bb := range h.Blocks {
+				for _, ins := range bb.Instrs {
+					lk, ok := ins.(*ssa.Lookup)
+					if !ok || !lk.CommaOk || !isField(lk.X) {
+						continue
+					}
+					pa, isP := p.Resolve(lk.Index).(*ssa.Parameter)
+					if !isP {
+						continue
+					}
+					idx := -1
+					for i, q := range h.Params {
+						if q == pa {
+							idx = i
+						}
+					}
+					if idx < 0 || idx >= len(call.Call.Args) || !p.SameValue(call.Call.Args[idx], key) {
+						continue
+					}
+					faithful := true
+					for _, r := range eng.Returns(h) {
+						if len(r.Results) != 1 {
+							faithful = false
+							continue
+						}
+						ex, isEx := p.Resolve(retVal(p, r)).(*ssa.Extract)
+						if !isEx || ex.Index != 1 || ex.Tuple != ssa.Value(lk) {
+							faithful = false
+						}
+					}
+					if !faithful {
+						continue
+					}
+					_, absent := eng.BoolEdges(f, func(v ssa.Value) bool { return v == ssa.Value(call) })
+					if len(absent) > 0 && eng.Cut(f, b, absent) {
+						return true
+					}
+				}
+			}
+		}
 		return false
 	}
 	n := 0
